@@ -121,6 +121,10 @@ func checkC16(p *core.Program, r *core.Report) {
 		unconditional bool
 		constVal      string
 		pos           token.Pos
+		// for an item written from a row of a local table (key/value struct literal ranged over):
+		// the table and the values of this row's fields
+		table *ssa.Alloc
+		row   map[int]ssa.Value
 	}
 	writer := map[string]*wkey{}
 	var annCall ssa.Instruction
@@ -165,6 +169,43 @@ func checkC16(p *core.Program, r *core.Report) {
 				if x.Op != token.ADD {
 					return
 				}
+				if kx, ok := x.X.(*ssa.BinOp); ok && kx.Op == token.ADD {
+					// <row>.key + "=" + <row>.value for the rows of a local table
+					if eq, ok := strConst(kx.Y); ok && eq == "=" {
+						if tab, kf, ok := tableField(kx.X); ok {
+							for _, row := range tableRows(tab) {
+								key, ok := strConst(row[kf])
+								if !ok || strings.Contains(key, "=") {
+									continue
+								}
+								w := &wkey{src: map[string]bool{}, pos: x.Pos(), table: tab, row: row}
+								val := x.Y
+								if t2, vf, ok := tableField(x.Y); ok && t2 == tab && row[vf] != nil {
+									val = row[vf]
+								}
+								if c, ok := strConst(val); ok {
+									w.constVal = c
+								} else {
+									fieldSources(val, mgr, 0, w.src)
+								}
+								// written on every path when nothing but the loop over the table guards the site
+								guarded := false
+								for _, f := range dominatingFacts(x) {
+									if !isRangeLoopCond(f.cond) {
+										guarded = true
+									}
+								}
+								if !guarded {
+									if hdr := loopHeaderOf(x.Block()); hdr != nil {
+										w.unconditional = onEveryPath(hdr)
+									}
+								}
+								writer[key] = w
+							}
+							return
+						}
+					}
+				}
 				k, ok := strConst(x.X)
 				if !ok || !strings.HasSuffix(k, "=") || strings.Count(k, "=") != 1 {
 					return
@@ -200,6 +241,79 @@ func checkC16(p *core.Program, r *core.Report) {
 		})
 	}
 	scanWriter(ann, true, 2)
+	// an optional TXT item is written whenever its own value is non-empty: the conditions guarding its write
+	// mention no other manager field
+	for key, w := range writer {
+		if w.unconditional || len(w.src) == 0 {
+			continue
+		}
+		var site ssa.Instruction
+		for fn := range scanned {
+			core.EachInstr(fn, func(in ssa.Instruction) {
+				if bo, ok := in.(*ssa.BinOp); ok && bo.Pos() == w.pos {
+					site = in
+				}
+			})
+		}
+		if site == nil {
+			continue
+		}
+		foreign := map[string]bool{}
+		for _, f := range dominatingFacts(site) {
+			srcs := map[string]bool{}
+			var walk func(v ssa.Value, d int)
+			walk = func(v ssa.Value, d int) {
+				if v == nil || d > 6 {
+					return
+				}
+				if w.table != nil {
+					if isRangeLoopCond(v) {
+						return
+					}
+					if t2, f2, ok := tableField(v); ok && t2 == w.table && w.row[f2] != nil {
+						v = w.row[f2]
+					}
+				}
+				switch x := v.(type) {
+				case *ssa.BinOp:
+					walk(x.X, d+1)
+					walk(x.Y, d+1)
+				case *ssa.UnOp:
+					if x.Op == token.NOT {
+						walk(x.X, d+1)
+						return
+					}
+					fieldSources(v, mgr, 0, srcs)
+				case *ssa.Call:
+					if isBuiltin(x, "len") {
+						walk(x.Call.Args[0], d+1)
+						return
+					}
+					fieldSources(v, mgr, 0, srcs)
+				default:
+					fieldSources(v, mgr, 0, srcs)
+				}
+			}
+			walk(f.cond, 0)
+			for s := range srcs {
+				if w.src[s] {
+					continue
+				}
+				// only fields that are themselves announced values count (not e.g. the provider handle)
+				for k2, w2 := range writer {
+					if k2 != key && w2.src[s] {
+						foreign[s] = true
+					}
+				}
+			}
+		}
+		k := "optional key " + key + " depends on its own value only"
+		if len(foreign) == 0 {
+			r.OK(R1, k, p.Pos(w.pos), "written whenever its value is non-empty")
+		} else {
+			r.Fail(R1, k, p.Pos(w.pos), fmt.Sprintf("TXT key '%s' is only announced when another configuration field (%v) is set as well: a service that has the value but not that field announces nothing for it, and the browser reads back an empty value", key, keysOf(foreign)))
+		}
+	}
 	// constants folded by the compiler: "path=" + shipWebsocketPath is one constant "path=/ship/"
 	// ---- reader table
 	var elements ssa.Value
@@ -1161,4 +1275,137 @@ func globalStringList(g *ssa.Global) []string {
 		}
 	})
 	return out
+}
+
+// tableField recognises v as field f of the current row of a loop over a local table - a slice or array
+// literal of structs that the function ranges over - and returns the table's backing array.
+func tableField(v ssa.Value) (*ssa.Alloc, int, bool) {
+	var rowVal ssa.Value
+	field := -1
+	switch x := v.(type) {
+	case *ssa.Field:
+		rowVal, field = x.X, x.Field
+	case *ssa.UnOp:
+		if x.Op != token.MUL {
+			return nil, 0, false
+		}
+		fa, ok := x.X.(*ssa.FieldAddr)
+		if !ok {
+			return nil, 0, false
+		}
+		field = fa.Field
+		switch a := fa.X.(type) {
+		case *ssa.Alloc:
+			// local copy of the range element: exactly one store, of the loaded element
+			for _, ref := range *a.Referrers() {
+				if st, ok := ref.(*ssa.Store); ok && st.Addr == a {
+					if rowVal != nil {
+						return nil, 0, false
+					}
+					rowVal = st.Val
+				}
+			}
+		case *ssa.IndexAddr:
+			return tableOfElemAddr(a, field)
+		}
+	}
+	if rowVal == nil {
+		return nil, 0, false
+	}
+	ld, ok := rowVal.(*ssa.UnOp)
+	if !ok || ld.Op != token.MUL {
+		return nil, 0, false
+	}
+	ia, ok := ld.X.(*ssa.IndexAddr)
+	if !ok {
+		return nil, 0, false
+	}
+	return tableOfElemAddr(ia, field)
+}
+
+func tableOfElemAddr(ia *ssa.IndexAddr, field int) (*ssa.Alloc, int, bool) {
+	if _, isConst := ia.Index.(*ssa.Const); isConst {
+		return nil, 0, false // a fixed row, not the loop's current one
+	}
+	x := ia.X
+	if sl, ok := x.(*ssa.Slice); ok && sl.Low == nil && sl.High == nil {
+		x = sl.X
+	}
+	al, ok := x.(*ssa.Alloc)
+	if !ok {
+		return nil, 0, false
+	}
+	at, ok := al.Type().(*types.Pointer).Elem().Underlying().(*types.Array)
+	if !ok {
+		return nil, 0, false
+	}
+	if _, ok := at.Elem().Underlying().(*types.Struct); !ok {
+		return nil, 0, false
+	}
+	return al, field, true
+}
+
+// tableRows returns, per row of the table literal, the value stored into each field.
+func tableRows(tab *ssa.Alloc) []map[int]ssa.Value {
+	var rows []map[int]ssa.Value
+	for _, ref := range *tab.Referrers() {
+		ia, ok := ref.(*ssa.IndexAddr)
+		if !ok {
+			continue
+		}
+		if _, isConst := ia.Index.(*ssa.Const); !isConst {
+			continue
+		}
+		row := map[int]ssa.Value{}
+		fill := func(base ssa.Value) {
+			for _, r2 := range *base.Referrers() {
+				if fa, ok := r2.(*ssa.FieldAddr); ok {
+					for _, r3 := range *fa.Referrers() {
+						if st, ok := r3.(*ssa.Store); ok && st.Addr == fa {
+							row[fa.Field] = st.Val
+						}
+					}
+				}
+			}
+		}
+		fill(ia) // &tab[i].f = v
+		for _, r2 := range *ia.Referrers() {
+			if st, ok := r2.(*ssa.Store); ok && st.Addr == ia {
+				// tab[i] = *complit
+				if ld, ok := st.Val.(*ssa.UnOp); ok && ld.Op == token.MUL {
+					if c, ok := ld.X.(*ssa.Alloc); ok {
+						fill(c)
+					}
+				}
+			}
+		}
+		if len(row) > 0 {
+			rows = append(rows, row)
+		}
+	}
+	return rows
+}
+
+// isRangeLoopCond: the continuation test of a range loop (index < len).
+func isRangeLoopCond(v ssa.Value) bool {
+	bo, ok := v.(*ssa.BinOp)
+	if !ok || bo.Op != token.LSS {
+		return false
+	}
+	inc, ok := bo.X.(*ssa.BinOp)
+	if !ok || inc.Op != token.ADD {
+		return false
+	}
+	ph, ok := inc.X.(*ssa.Phi)
+	return ok && ph.Comment == "rangeindex"
+}
+
+// loopHeaderOf returns the nearest dominator of b that is a range-loop header.
+func loopHeaderOf(b *ssa.BasicBlock) *ssa.BasicBlock {
+	for d := b; d != nil; d = d.Idom() {
+		if d.Comment == "rangeindex.loop" {
+			return d
+		}
+	}
+	return nil
 }
